@@ -206,7 +206,7 @@ impl<'a> SpecGen<'a> {
             }
             13 | 14 => { self.feat("primitive_component"); (self.primitive(), "prim") }
             15 => match { let earlier: Vec<String> = self.names.iter().zip(self.kinds.iter()).filter(|(_, k)| **k == "alias").map(|(n, _)| n.clone()).collect(); if !earlier.is_empty() && self.rng.chance(1, 2) { let n: String = self.rng.pick(&earlier[..]).clone(); self.feat("alias_of_alias"); Some(r(&n)) } else if self.rng.chance(1, 3) { let enums: Vec<String> = self.names.iter().zip(self.kinds.iter()).filter(|(_, k)| **k == "enum").map(|(n, _)| n.clone()).collect(); if enums.is_empty() { self.solid_ref() } else { let n: String = self.rng.pick(&enums[..]).clone(); self.feat("alias_of_enum"); Some(r(&n)) } } else { self.solid_ref() } } {
-                Some(t) => { self.feat("alias_component"); let mut a = json!({"allOf": [t]}); if self.rng.chance(1, 2) { a["nullable"] = json!(true); self.feat("nullable_alias"); if self.is_object_ref(&a["allOf"][0]) { self.nullable_aliases.insert(0, name.to_string()); self.feat("nullable_alias_of_a_model"); } else { self.nullable_aliases.push(name.to_string()); } } (a, "alias") }
+                Some(t) => { self.feat("alias_component"); let mut a = if self.names.len() % 3 == 2 { self.feat("alias_with_description_member"); json!({"allOf": [t, {"description": "the documented-reference idiom"}]}) } else { json!({"allOf": [t]}) }; if self.rng.chance(1, 2) { a["nullable"] = json!(true); self.feat("nullable_alias"); if self.is_object_ref(&a["allOf"][0]) { self.nullable_aliases.insert(0, name.to_string()); self.feat("nullable_alias_of_a_model"); } else { self.nullable_aliases.push(name.to_string()); } } (a, "alias") }
                 None => (self.object(0, false), "object"),
             },
             16 | 17 => {
@@ -348,7 +348,16 @@ impl<'a> SpecGen<'a> {
                 body_schema["properties"][&n] = json!({"type": "string"});
                 self.feat("body_member_named_like_parameter");
             }
-            op.insert("requestBody".into(), json!({"content": {"application/json": {"schema": body_schema}}}));
+            if idx % 4 == 2 {
+                // the body is also offered in another JSON dialect, listed first; the client speaks application/json
+                let mut content = Map::new();
+                content.insert("application/merge-patch+json".into(), json!({"schema": {"type": "array", "items": {"type": "object"}}}));
+                content.insert("application/json".into(), json!({"schema": body_schema}));
+                op.insert("requestBody".into(), json!({"content": content}));
+                self.feat("body_with_second_media_type");
+            } else {
+                op.insert("requestBody".into(), json!({"content": {"application/json": {"schema": body_schema}}}));
+            }
             self.feat("body");
         }
         let mut responses = Map::new();
@@ -414,7 +423,7 @@ impl<'a> SpecGen<'a> {
             // a placeholder that repeats its collection's name, next to the collection itself; templates ending in a slash; the root
             ("/user", &[]), ("/user/{user}", &["user"]), ("/gadgets/", &[]), ("/gadgets/{gadget_id}/parts/", &["gadget_id"]), ("/", &[]),
             // placeholder names with the other characters of the name alphabet, a keyword, a leading digit
-            ("/orgs/{org-id}/members", &["org-id"]), ("/files/{file.id}", &["file.id"]), ("/kinds/{type}", &["type"]), ("/codes/{2fa}/verify", &["2fa"]),
+            ("/orgs/{org-id}/members", &["org-id"]), ("/files/{file.id}", &["file.id"]), ("/types/{type}", &["type"]), ("/petId/{petId}", &["petId"]), ("/codes/{2fa}/verify", &["2fa"]),
         ];
         let n_paths = self.rng.range(1, self.opts.max_paths.max(1));
         let mut paths = Map::new();
@@ -545,6 +554,30 @@ impl<'a> SpecGen<'a> {
             }
         }
         if self.opts.docs && self.rng.chance(1, 4) { doc["externalDocs"] = json!({"url": "https://docs.example.com"}); }
+        // a notification payload nobody but a `...Webhook` component (kept for its name) refers to
+        if self.names.len() % 4 == 2 && doc["components"]["schemas"].get("ZzNotifyWebhook").is_none() {
+            doc["components"]["schemas"]["ZzNotifyWebhook"] = json!({"type": "object", "properties": {"payload": {"$ref": "#/components/schemas/ZzNotifyPayload"}, "sent": {"type": "string"}}});
+            doc["components"]["schemas"]["ZzNotifyPayload"] = json!({"type": "object", "properties": {"kind": {"$ref": "#/components/schemas/ZzNotifyKind"}}});
+            doc["components"]["schemas"]["ZzNotifyKind"] = json!({"type": "string", "enum": ["created", "deleted"]});
+            self.feat("webhook_with_private_models");
+        }
+        // two operation ids that agree on their first seventy characters
+        if self.names.len() % 5 == 3 {
+            let mut n = 0;
+            if let Some(paths) = doc["paths"].as_object_mut() {
+                for (_, item) in paths.iter_mut() {
+                    let Some(item) = item.as_object_mut() else { continue };
+                    for (verb, op) in item.iter_mut() {
+                        if verb == "parameters" || n >= 2 { continue; }
+                        if op.get("operationId").is_some() {
+                            op["operationId"] = json!(format!("listAllTheVeryLongNamedResourcesOfTheOrganizationForTheGivenProjectAndStage{}", ["Alpha", "Beta"][n]));
+                            n += 1;
+                        }
+                    }
+                }
+            }
+            if n > 0 { self.feat("long_operation_ids"); }
+        }
         // a third of the documents reaches the code under test with request bodies and responses declared under
         // `components` and referenced (see `pipeline::wrap_refs`)
         if self.names.len() % 3 == 1 { doc["x-lnv-wrap-refs"] = json!(true); self.feat("referenced_bodies_and_responses"); }
